@@ -195,7 +195,12 @@ func (cj *CookieJar) parseCookiesFromResp(host, path []byte, resp *fasthttp.Resp
 	now := time.Now()
 	resp.Header.VisitAllCookie(func(_, value []byte) {
 		c := fasthttp.AcquireCookie()
-		_ = c.ParseBytes(value) //nolint:errcheck // ignore error
+		if err := c.ParseBytes(value); err != nil {
+			// never store a half-parsed cookie: the attributes after the unparsable one
+			// (path, expiry) would be missing
+			fasthttp.ReleaseCookie(c)
+			return
+		}
 
 		// Max-Age wins over Expires (RFC 6265, 5.3). fasthttp only keeps a positive
 		// Max-Age, so "max-age=0" (expire now) has to be looked up in the raw value.
